@@ -503,7 +503,11 @@ func (r *Reconciler) Reconcile(ctx context.Context, req reconcile.Request) (reco
 		}
 
 		log.Debug("Successfully deleted composite resource")
-		xr.SetConditions(xpv1.ReconcileSuccess())
+		// Removing the finalizer updates the XR, which replaces our in-memory
+		// copy (and its status) with the API server's response. Set the
+		// Deleting condition again so that it's not lost if something else
+		// (e.g. another finalizer) keeps the XR around.
+		xr.SetConditions(xpv1.Deleting(), xpv1.ReconcileSuccess())
 		return reconcile.Result{Requeue: false}, errors.Wrap(r.client.Status().Update(ctx, xr), errUpdateStatus)
 	}
 
